@@ -17,6 +17,7 @@ import GrcovModel.Drv.C05Cli
 import GrcovModel.Drv.C02Run
 import GrcovModel.Drv.C03Html
 import GrcovModel.Drv.C14Text
+import GrcovModel.Drv.C20WorkDirs
 open Grcov.Drv
 
 def step (line : String) : String :=
@@ -63,9 +64,17 @@ def step (line : String) : String :=
   | "c03.json.covdir" :: args => handleJsonCovdir args
   | "c03.json.ade" :: args => handleJsonAde args
   | "c20.llvmtree.find" :: args => handleLlvmTreeFind args
+  | "c20.llvm.list" :: args => handleLlvmList args
+  | "c20.llvm.stdin" :: args => handleLlvmStdin args
+  | "c20.llvm.run" :: args => handleLlvmRun args
+  | "c20.wd.layout" :: args => handleWdLayout args
   | "cli.run" :: args => handleCliRun args
+  | "cli.runj" :: args => handleCliRunJ args
+  | "c05.output_lcov" :: args => handleOutputLcov args
+  | "c05.output_lcov_dm" :: args => handleOutputLcovDm args
   | "run.all" :: args => Grcov.Drv.RunAll.handleRunAll args
   | "c03.htmlb" :: args => Grcov.Drv.C03Html.handle args
+  | "c03.lcov" :: args => Grcov.Drv.FnOrder.handleLcov args
   | "c14.text.lcov" :: args => Grcov.Drv.C14Text.handleLcov args
   | "c14.text.gcov" :: args => Grcov.Drv.C14Text.handleGcov args
   | "c14.text.gcovjson" :: args => Grcov.Drv.C14Text.handleGcovJson args
